@@ -6,7 +6,11 @@
      CFrame  : a byte stream through protocol.ReadFrame;
      CConn   : a byte stream through the real Server.handleConnection over net.Pipe with
                a recording handler: the (key, version, correlation id) of every request
-               that reached the handler, and whether the goroutine panicked. *)
+               that reached the handler, how many bytes of the stream the server read
+               before it returned (the error path closes the connection and leaves the
+               rest unread), and whether the goroutine panicked. [bad] lists the
+               (key, version, body) triples the kmsg decoder rejected (observed by parsing
+               each frame of the stream separately). *)
 From KS Require Import lib.Base lib.Wire model.ProtoHeader gen.ApiTables.
 Open Scope Z_scope.
 
@@ -27,7 +31,7 @@ Inductive fobs := FOk (payload_len rest_len : Z) | FErr (cls : Z) | FPanic.
 Inductive case :=
 | CHeader (b : bytes) (h : hobs) (body_ok : bool) (r : robs)
 | CFrame (s : bytes) (f : fobs)
-| CConn (s : bytes) (handled : list (Z * Z * Z)) (panicked : bool).
+| CConn (s : bytes) (bad : list (Z * Z * bytes)) (handled : list (Z * Z * Z)) (consumed : Z) (panicked : bool).
 
 Definition hobs_of (o : outcome (header * bytes)) : hobs :=
   match o with
@@ -76,8 +80,12 @@ Definition check_case (c : case) : bool :=
       hobs_eqb (hobs_of (parse_header flex_tab true b)) h &&
       robs_eqb (robs_of (parse_request unit known_tab (fun _ _ _ => if body_ok then Some tt else None) flex_tab true b)) r
   | CFrame s f => fobs_eqb (fobs_of (read_frame s)) f
-  | CConn s handled panicked =>
-      let '(l, t) := serve unit known_tab (fun _ _ _ => Some tt) flex_tab true (S (length s)) s in
+  | CConn s bad handled consumed panicked =>
+      let body_read := fun k v b =>
+        if existsb (fun t => let '(k', v', b') := t in (k =? k') && (v =? v') && bytes_eqb b b') bad
+        then None else Some tt in
+      let '(l, t, unread) := serve unit known_tab body_read flex_tab true (S (length s)) s in
       list_eqb triple_eqb (handled_of l) handled &&
+      (zlen s - zlen unread =? consumed) &&
       Bool.eqb (existsb is_panic l || is_panic t) panicked
   end.
